@@ -139,7 +139,7 @@ func writeTemplateFacts(repo, outPath string) {
 	fmt.Fprintf(&b, "/-- every `DecodeBytes` use of the snippets: (define, copied | subdecoder | aliased) -/\ndef decodeBytesSites : List (String × String) := [%s]\n\n", strings.Join(dsites, ", "))
 	fmt.Printf("fact F12 %d DecodeBytes sites\n", len(dsites))
 	// per file template
-	var unk, req, resets []string
+	var unk, req, resets, mrets []string
 	mentions := 0
 	for _, f := range []string{"singlefile.go.tmpl", "permessage.go.tmpl"} {
 		src := read(f)
@@ -157,6 +157,14 @@ func writeTemplateFacts(repo, outPath string) {
 		written := strings.Contains(marshalToBody, "enc.EncodeRaw(m.unknownFields)") && strings.Contains(marshalToBody, "enc.EncodeRaw(m.XXX_unrecognized)")
 		kept := strings.Contains(unmarshalBody, "m.unknownFields = append(m.unknownFields, skipped...)") && strings.Contains(unmarshalBody, "m.XXX_unrecognized = append(m.XXX_unrecognized, skipped...)")
 		unk = append(unk, fmt.Sprintf("(%q, %s, %s, %s)", f, leanBool(sized), leanBool(written), leanBool(kept)))
+		// what Marshal() hands out: every `return` of its body, and whether the buffer it fills is allocated there
+		var rets []string
+		for _, m := range regexp.MustCompile(`(?m)^\s*return\s+(.*?)\s*$`).FindAllStringSubmatch(marshalBody, -1) {
+			rets = append(rets, strings.Join(strings.Fields(m[1]), " "))
+		}
+		fresh := strings.Contains(marshalBody, "buf := make([]byte, siz)") && strings.Contains(marshalBody, "m.MarshalTo(buf)") &&
+			strings.Count(marshalBody, "buf =") == 0 && strings.Count(marshalBody, "buf :=") == 1
+		mrets = append(mrets, fmt.Sprintf("(%q, %s, %s)", f, leanBool(fresh), leanStrList(rets)))
 		first := strings.TrimSpace(strings.SplitN(unmarshalBody[strings.Index(unmarshalBody, "{")+1:], "\n", 3)[1])
 		resets = append(resets, fmt.Sprintf("(%q, %s)", f, leanBool(first == "m.Reset()")))
 		guard := regexp.MustCompile(`\{\{-? if not \(hasRequiredFields [^)]*\) \}\}\s*if (siz == 0|len\(p\) == 0) \{`)
@@ -168,6 +176,24 @@ func writeTemplateFacts(repo, outPath string) {
 	fmt.Fprintf(&b, "/-- mentions of the runtime's size-cache fields / sync/atomic in the two file templates -/\ndef sizeCacheMentions : Nat := %d\n\n", mentions)
 	fmt.Fprintf(&b, "/-- (template, Size counts the unknown fields, MarshalTo writes them, Unmarshal keeps them) -/\ndef unknownHandling : List (String × Bool × Bool × Bool) := [%s]\n\n", strings.Join(unk, ", "))
 	fmt.Fprintf(&b, "/-- (template, the `siz == 0` shortcut of Marshal is only taken without required fields, likewise the `len(p) == 0` shortcut of Unmarshal, Unmarshal runs the required-field check) -/\ndef requiredGuards : List (String × Bool × Bool × Bool) := [%s]\n\n", strings.Join(req, ", "))
+	fmt.Fprintf(&b, "/-- (template, Marshal() fills a buffer it allocates itself with `make([]byte, siz)` and never re-assigns it, the operands of every `return` of Marshal()) -/\ndef marshalReturns : List (String × Bool × List String) := [%s]\n\n", strings.Join(mrets, ", "))
+	fmt.Printf("fact F17 Marshal() returns %v\n", mrets)
+	// the hand-written package the generated Unmarshal calls into while it collects unknown fields (csproto.SetExtension in the
+	// extension arms, the Decoder): does any of it touch a message's unknown-field storage?
+	touches := 0
+	if ents, err := os.ReadDir(repo); err == nil {
+		for _, e := range ents {
+			if e.IsDir() || !strings.HasSuffix(e.Name(), ".go") || strings.HasSuffix(e.Name(), "_test.go") {
+				continue
+			}
+			src, _ := os.ReadFile(filepath.Join(repo, e.Name()))
+			for _, w := range []string{"SetUnknown(", "XXX_unrecognized", "unknownFields", "protoimpl.UnknownFields"} {
+				touches += strings.Count(string(src), w)
+			}
+		}
+	}
+	fmt.Fprintf(&b, "/-- mentions of a message's unknown-field storage (`SetUnknown(`, `XXX_unrecognized`, `unknownFields`) in the non-test Go files of the root package -/\ndef shimUnknownStoreMentions : Nat := %d\n\n", touches)
+	fmt.Printf("fact F18 unknown-field storage mentions in the root package = %d\n", touches)
 	fmt.Fprintf(&b, "/-- (template, the first statement of the generated Unmarshal is `m.Reset()`) -/\ndef unmarshalResetsFirst : List (String × Bool) := [%s]\n\n", strings.Join(resets, ", "))
 	fmt.Printf("fact F15 Unmarshal resets first %v\n", resets)
 	fmt.Printf("fact F10 size-cache mentions = %d\nfact F13 unknown handling %v\nfact F14 required guards %v\n", mentions, unk, req)
